@@ -136,7 +136,7 @@ def runStreamJl (prop tiS toS readerS extS implS : String) : Result :=
               else if sOut != out || sErr != nerr then some "outcomes-differ-from-per-line-outcomes"
               else none
             | _ => none
-        else if prop != "C08" then none
+        else if prop != "C08" && prop != "C19" then none
         else if readerFails && !reported then some "reader-failure-swallowed"
         else if !readerFails && hasOverLongLine cfg.maxSize bytes && !reported then some "oversize-line-swallowed"
         else none
